@@ -270,25 +270,42 @@ theorem stale_root_fails_clean (H : Bytes → Bytes) (h32 : ∀ b, (H b).length 
   exact walk_sound hcf h32 (storeBytes s.store) (fun x hx => List.mem_append_left _ hx) t fuel p v hb hne
     (fun x hx => List.mem_append_right _ hx) hw
 
-/-! ## 5. a block that is computed but never committed (DESIGN §6 item 11)
+/-! ## 5. a block that is computed but never committed
 
-Full statement (what the property asks):
-  uncommitted_block_harmless : dropBlock H s idx ops = some s' →
-      commit H s' idx' ops' = commit H s idx' ops'          -- the dropped block leaves no trace
-It is FALSE for the code as written: `AddMPTBatch` works on a shallow copy (`mpt := *s.mpt`), the
-nodes are updated in place and the refcount map is shared. What does hold in the model: the store
-itself is not written (the real code even violates that through slice aliasing, see props/C11.json).
-Negation witness below (toy hash); the replay on the real code is corpus case 3 of stream `mptrc`. -/
+The node drops a block by `AddMPTBatch` followed by `stateRoot.DropMPTBatch()` (storeBlock, every
+error path after AddMPTBatch; /repo c513b1a): the module's trie is re-opened from the current local
+root with a fresh refcount map — the model's `dropBlock`. Before that fix a dropped block was simply
+not committed (`dropBlockNoReload`): the theorems after `uncommitted_block_store_untouched` are kept
+as regression examples about that OLD rule (the API still behaves so if a caller omits
+DropMPTBatch: AddMPTBatch without DropMPTBatch or UpdateCurrentLocal leaves the module dirty). -/
 
-theorem uncommitted_block_store_untouched_partial (H : Bytes → Bytes) (s s' : St) (idx : Nat) (ops : List SubOp)
-    (h : dropBlock H s idx ops = some s') : s'.store = s.store ∧ s'.roots = s.roots := by
-  simp only [dropBlock] at h
-  cases hc : compute H s idx ops with
-  | none => simp [hc] at h
-  | some r =>
-    obtain ⟨t', m', st'⟩ := r
-    simp only [hc, Option.some.injEq] at h
-    subst h; exact ⟨rfl, rfl⟩
+/-- C11.5 FULL statement: a dropped block leaves no trace. On every state reached by a history (either
+counting mode): `AddMPTBatch` + `DropMPTBatch` does not panic; the node store, the root records, the
+retained heights, the live trie and the collection index are unchanged (the refcount map is empty);
+and any later history — blocks on a fully or partly loaded trie, collections, restarts, jumps — runs
+from there exactly as if the block had never been computed: same tries at every height, same
+collection index, under every hash a record with the same active flag and count / deactivation
+height, both runs satisfying the history invariant (exact counts, retained roots complete). -/
+theorem uncommitted_block_store_untouched (H : Bytes → Bytes) (mode : Mode) (hrc : mode.rc = true) (top : Option Nat)
+    (s : St) (hinv : Inv H mode top s) (idx : Nat) (ops : List SubOp) (hh : ∀ h, top = some h → h < idx) :
+    ∃ s', dropBlock H s idx ops = some s' ∧
+      s'.store = s.store ∧ s'.roots = s.roots ∧ s'.hist = s.hist ∧ s'.root = s.root ∧ s'.gcAt = s.gcAt ∧
+      s'.rc = [] ∧
+      ∀ later, Heights top later →
+        ∃ r r' top', runOps H s' later = some r ∧ runOps H s later = some r' ∧
+          Inv H mode top' r ∧ Inv H mode top' r' ∧ r.root = r'.root ∧ r.hist = r'.hist ∧ r.gcAt = r'.gcAt ∧
+          ∀ k, ctag (sget r.store k) = ctag (sget r'.store k) :=
+  drop_no_trace H mode hrc top s hinv idx ops hh
+
+-- non-vacuity: block 0, block 1' computed and dropped, block 1: the dropped key is NOT in the
+-- committed trie, the store is exact (compare the witnesses of the old rule below)
+set_option maxRecDepth 100000 in
+example : ((commit toyH { mode := .latest } 0 [.put [1,2] [0xaa], .put [3,4] [0xbb]]).bind fun a =>
+      (dropBlock toyH a 1 [.put [5,6] [0xcc]]).bind fun b => (commit toyH b 1 [.put [1,2] [0xdd]]).map fun s =>
+        (lookup s.root [5,6], (sget s.store (hash toyH (.leaf [0xcc]))).isSome, activeCnt s.store (hash toyH (.leaf [0xdd])))) =
+    some (none, false, 1) := by decide
+
+/-! ### regression examples about the OLD rule (a drop without DropMPTBatch) -/
 
 def wB0 : List SubOp := [.put [1,2] [0xaa], .put [3,4] [0xbb]]
 def wDrop : List SubOp := [.put [5,6] [0xcc]]
@@ -297,7 +314,7 @@ def wB1 : List SubOp := [.put [1,2] [0xdd]]
 /-- block 0, then block 1' computed and dropped, then block 1. -/
 def withDrop : Option St := do
   let a ← commit toyH { mode := .latest } 0 wB0
-  let b ← dropBlock toyH a 1 wDrop
+  let b ← dropBlockNoReload toyH a 1 wDrop
   commit toyH b 1 wB1
 
 /-- block 0, then block 1 (what a deep copy would give). -/
@@ -331,7 +348,7 @@ shared map is the number of occurrences in the dropped block's trie, not the sto
 count = `…:panic`); the dropped block's new nodes have no record (`…:store:*:node-missing`). -/
 theorem uncommitted_block_leaves_phantom (H : Bytes → Bytes) (mode : Mode) (hrc : mode.rc = true) (top : Option Nat)
     (s : St) (idx : Nat) (ops : List SubOp) (hinv : Inv H mode top s) (hh : ∀ h, top = some h → h < idx) :
-    ∃ c s', commit H s idx ops = some c ∧ dropBlock H s idx ops = some s' ∧
+    ∃ c s', commit H s idx ops = some c ∧ dropBlockNoReload H s idx ops = some s' ∧
       Inv H mode (some idx) c ∧
       s'.root = c.root ∧ s'.rc = c.rc ∧ s'.store = s.store ∧ s'.roots = s.roots ∧ s'.hist = s.hist ∧
       c.root = trieAfter s.root ops ∧
@@ -343,7 +360,7 @@ theorem uncommitted_block_leaves_phantom (H : Bytes → Bytes) (mode : Mode) (hr
 -- non-vacuity: the witness history above: after the drop the map caches count 1 for the dropped leaf
 -- `cc`, which has no record
 set_option maxRecDepth 100000 in
-example : ((commit toyH { mode := .latest } 0 wB0).bind fun a => (dropBlock toyH a 1 wDrop).map fun b =>
+example : ((commit toyH { mode := .latest } 0 wB0).bind fun a => (dropBlockNoReload toyH a 1 wDrop).map fun b =>
     ((mget b.rc (hash toyH (.leaf [0xcc]))).map (·.initial), (sget b.store (hash toyH (.leaf [0xcc]))).isSome)) =
     some (some 1, false) := by decide
 
